@@ -198,6 +198,45 @@ def _read_tables() -> dict[str, dict[str, int | None]]:
     }
 
 
+def _describe_shape() -> tuple[bool, bool]:
+    """(`__describe__` answered before the request is read?, protocol-version gate exempts `__describe__`?)."""
+    fn = _func(_tree(f"{SRV}/_app_unary.py"), "_run_unary_sync")
+    read_try = _innermost_try(fn, lambda c: _callee(c) == "_read_request")
+    branches = [n for n in ast.walk(fn) if isinstance(n, ast.If) and "describe_batch is not None" in ast.unparse(n.test)
+                and "method_name == '__describe__'" in ast.unparse(n.test)]
+    if len(branches) != 1:
+        raise Shape(f"_run_unary_sync: expected one pre-built __describe__ branch, found {len(branches)}")
+    br = branches[0]
+    if not any(isinstance(n, ast.Return) for n in ast.walk(br)):
+        raise Shape("_run_unary_sync: the __describe__ branch does not return")
+    before = br.lineno < read_try.lineno
+    inside = any(n is br for n in ast.walk(read_try))
+    if inside:
+        raise Shape("_run_unary_sync: the __describe__ branch sits inside the request-reading try")
+    gates = [n for n in ast.walk(fn) if isinstance(n, ast.If) and any(isinstance(c, ast.Call) and _callee(c) == "_check_protocol_version" for c in ast.walk(n))
+             and "_protocol_version_parts" in ast.unparse(n.test)]
+    if len(gates) != 1:
+        raise Shape("_run_unary_sync: protocol-version gate not found")
+    exempt = "method_name != '__describe__'" in ast.unparse(gates[0].test)
+    return before, exempt
+
+
+def _upload_shape() -> tuple[bool, dict[str, int | None], dict[str, int | None], int]:
+    parse, val = _probes()
+    mod = _module("vgi_rpc.http.server._resources")
+    fn = _func(_class(_tree(f"{SRV}/_resources.py"), "_UploadUrlResource"), "on_post")
+    t = _innermost_try(fn, lambda c: _callee(c) == "_read_request")
+    ct_calls = [n for n in ast.walk(fn) if isinstance(n, ast.Call) and _callee(n) == "_check_content_type"]
+    checks_ct = len(ct_calls) == 1 and ct_calls[0].lineno < t.lineno
+    if "ipc_method != _UPLOAD_URL_METHOD" not in ast.unparse(t):
+        raise Shape("_UploadUrlResource: method check not inside the request-reading try")
+    prov = _innermost_try(fn, lambda c: _callee(c) == "generate_upload_url")
+    hs = [h for h in prov.handlers if h.type is not None and ast.unparse(h.type) == "Exception"]
+    if len(hs) != 1:
+        raise Shape("_UploadUrlResource: provider failure handler")
+    return checks_ct, _handler_table(mod, t, parse, "upload"), _handler_table(mod, t, val, "upload"), _one_status(hs[0], "upload failure")
+
+
 def _size_op(node: ast.AST, left: str, right: str, what: str) -> str:
     """Operator of the comparison(s) `<left> <op> <right>` in `node` (guards that refuse): gt | ge."""
     found = [c for c in ast.walk(node) if isinstance(c, ast.Compare) and len(c.ops) == 1
@@ -572,6 +611,8 @@ def emit() -> dict[str, str]:
     wraps_batch, wraps_kwargs, wraps_empty = _read_request_wraps()
     deser = _deser_tables()
     sops = _size_ops()
+    describe_before, describe_exempt = _describe_shape()
+    up_ct, up_parse, up_val, up_fail = _upload_shape()
     order, ct_status, nf_status, ct_op = _resolve_method()
     guards = {c: _resource_guard(c) for c in ("_RpcResource", "_StreamInitResource", "_ExchangeResource")}
     mw = _middleware_order()
@@ -660,6 +701,16 @@ def missingTokenStatus : Nat := {missing}
 def tokenStatuses : List Nat := {toks}
 /-- the try guarding `_coerce_input_batch` in `_run_http_exchange_turn`: `TypeError` (mismatch), `UnicodeDecodeError` (names) -/
 {_tbl("coerce", "ParamDefect", coerce)}
+/-- `_run_unary_sync`: position of the pre-built `__describe__` branch relative to request reading; version-gate exemption -/
+def describeBeforeRead : Bool := {str(describe_before).lower()}
+def describeExemptFromVersionGate : Bool := {str(describe_exempt).lower()}
+
+/-- `_UploadUrlResource.on_post` (POST …/__upload_url__/init) -/
+def uploadChecksContentType : Bool := {str(up_ct).lower()}
+{_tbl("uploadParse", "ParseExc", up_parse)}
+{_tbl("uploadVal", "ValExc", up_val)}
+def uploadFail : Nat := {up_fail}
+
 /-- in-band failure statuses (before `_set_http_status`) -/
 def unaryFail : Nat := {fails["unaryFail"]}
 def initFail : Nat := {fails["initFail"]}
@@ -705,6 +756,12 @@ def tables : Tables where
   missingTokenStatus := missingTokenStatus
   tokenStatuses := tokenStatuses
   coerce := coerce
+  describeBeforeRead := describeBeforeRead
+  describeExemptFromVersionGate := describeExemptFromVersionGate
+  uploadChecksContentType := uploadChecksContentType
+  uploadParse := uploadParse
+  uploadVal := uploadVal
+  uploadFail := uploadFail
   unaryFail := unaryFail
   initFail := initFail
   exchangeFail := exchangeFail
